@@ -4389,6 +4389,13 @@ look_sysfsnode(struct hwloc_topology *topology,
     }
     hwloc_bitmap_or(nodes_cpuset, nodes_cpuset, cpuset);
 
+    /* Ignore CPUs that were not discovered (for instance no topology directory).
+     * The core would remove them later anyway, but a node whose CPUs are all unknown
+     * must be placed as a CPU-less node, not where these CPUs would have been.
+     */
+    if (topology->levels[0][0]->cpuset)
+      hwloc_bitmap_and(cpuset, cpuset, topology->levels[0][0]->cpuset);
+
     node = hwloc_alloc_setup_object(topology, HWLOC_OBJ_NUMANODE, osnode);
     node->cpuset = cpuset;
     node->nodeset = hwloc_bitmap_alloc();
